@@ -376,7 +376,11 @@ func c12Run(c *fw.Ctx) {
 	base := c12Values()
 	idx := 0
 	seenClass := map[string]bool{}
+	expired := false
 	for _, sub := range subs {
+		if expired {
+			break
+		}
 		_, ch := sub.Build()
 		vals := map[string]interface{}{}
 		var labels []string
@@ -423,8 +427,16 @@ func c12Run(c *fw.Ctx) {
 		seenClass[key] = true
 		var rec func(steps []c12Step)
 		rec = func(steps []c12Step) {
+			if expired {
+				return
+			}
 			if len(steps) > 0 {
 				idx++
+				if idx%8192 == 0 && c.Expired() {
+					expired = true
+					c.NotExhaustive(fmt.Sprintf("deadline: the sequences of subject %s and of the subjects after it are not complete", sub.Name))
+					return
+				}
 				if c.Mine(idx) {
 					if idx%200000 == 3 {
 						c.Sample(c12Case{Subject: sub.Name, Steps: steps})
@@ -476,12 +488,17 @@ func c12Replay(c *fw.Ctx, raw json.RawMessage) {
 
 func init() {
 	fw.Register(&fw.Check{
-		ID:          "C12",
-		Level:       "model_checking",
-		Rule:        "every characteristic constructor found in /repo plus 18 generic constructor × format × bounds configurations (two with a declared step that does not divide the range); every update sequence of length ≤2 (thorough: ≤3 once per behaviour class = (format, min, max, default type, permissions)) over ≈40 JSON-like values (numbers of every magnitude and sign, numeric / NaN / Inf strings, booleans, null, arrays, objects, the constructor's own min−1/min/max/max+1, and for floats the neighbours of the bounds one float64 step and a 10^-8 fraction outside), each applied locally or from a connection, or supplied by an application read callback when the value is read locally (typed getter) or by a controller, or written by a change handler of the same characteristic while it is being notified of another change; plus, for every constructor with declared bounds, two live instances (one with narrowed bounds) updated alternately; after every update: no panic, stored value has the Go type of the format, is finite and within declared bounds, typed getter and JSON encoding succeed. states = executed sequences, distinct_nontrivial = distinct (format, stored Go type) classes Plus, in a subprocess built with a scheduling point before EVERY statement of hc's packages (textual insertion through go build -overlay): every interleaving with at most 1 (thorough 2) preemptions of pairs of operations on disjoint objects — and, where the property is about served requests, of pairs of handlers on two verified connections of one accessory touching different characteristics — each side must observe exactly what it observes when the two run one after the other (module-level mutable state is what makes them differ).",
-		Run:         c12Run,
-		Replay:      c12Replay,
-		Budget:      func(string) time.Duration { return 25 * time.Minute },
+		ID:     "C12",
+		Level:  "model_checking",
+		Rule:   "every characteristic constructor found in /repo plus 18 generic constructor × format × bounds configurations (two with a declared step that does not divide the range); every update sequence of length ≤2 (thorough: ≤3 once per behaviour class = (format, min, max, default type, permissions)) over ≈40 JSON-like values (numbers of every magnitude and sign, numeric / NaN / Inf strings, booleans, null, arrays, objects, the constructor's own min−1/min/max/max+1, and for floats the neighbours of the bounds one float64 step and a 10^-8 fraction outside), each applied locally or from a connection, or supplied by an application read callback when the value is read locally (typed getter) or by a controller, or written by a change handler of the same characteristic while it is being notified of another change; plus, for every constructor with declared bounds, two live instances (one with narrowed bounds) updated alternately; after every update: no panic, stored value has the Go type of the format, is finite and within declared bounds, typed getter and JSON encoding succeed. states = executed sequences, distinct_nontrivial = distinct (format, stored Go type) classes Plus, in a subprocess built with a scheduling point before EVERY statement of hc's packages (textual insertion through go build -overlay): every interleaving with at most 1 (thorough 2) preemptions of pairs of operations on disjoint objects — and, where the property is about served requests, of pairs of handlers on two verified connections of one accessory touching different characteristics — each side must observe exactly what it observes when the two run one after the other (module-level mutable state is what makes them differ).",
+		Run:    c12Run,
+		Replay: c12Replay,
+		Budget: func(tier string) time.Duration {
+			if tier == "thorough" {
+				return 8 * time.Minute // (the depth-3 sequences have outgrown an hour; what is completed is reported)
+			}
+			return 25 * time.Minute
+		},
 		Assumptions: []string{"only declared minimum/maximum are judged (not the intrinsic width of uint8/uint16 without declared bounds)", "values are JSON-like Go values as encoding/json produces them, plus Go ints for local updates"},
 	})
 	_ = strings.Join
